@@ -149,8 +149,11 @@ func (c *VirtualTable) Disconnect() error {
 		return err
 	}
 	if c.module.sc.ctxCancel != nil {
-		c.module.sc.ctxCancel()
-		c.module.sc.ctxCancel = nil
+		// Release the deadline's timer, but leave the connection - which
+		// may have other tables - with a usable context: cancelling it for
+		// good made every later statement of the connection fail with
+		// 'context canceled' until s3db_conn was updated again.
+		c.module.sc.ResetContext()
 	}
 
 	return nil
